@@ -1323,6 +1323,17 @@ func ruleErrStructure(r *Run) {
 					}
 				}
 			}
+			// `if err == nil { return errs }`: FormatError(nil) is the empty list, so the old list
+			// alone is the same answer — on the nil side of a test of the error, and only there
+			if !ok && v == ssa.Value(ext.Params[0]) {
+				for _, ins := range allInstrs(ext) {
+					if iff, isIf := ins.(*ssa.If); isIf {
+						if side := nilTestSideEq(iff, ext.Params[1]); side != nil && len(side.Preds) == 1 && (side == ret.Block() || side.Dominates(ret.Block())) {
+							ok = true
+						}
+					}
+				}
+			}
 			r.Check(ok, rule, fnName(ext), "errs ++ FormatError(err)", r.P.pos(retPos(ret)),
 				"the result is append(errs, FormatError(err)...): nothing is dropped or reordered",
 				"ExtendErrorList no longer returns exactly the old list followed by all formatted errors (truncation/filtering): which errors survive then depends on the arrival order of concurrently failing steps (C13) and client-visible errors are lost (C10, C20)")
